@@ -49,6 +49,10 @@ BOUNDS = {
         "forced_schedules": ["slow factory (create() sleeps 0.5 s from the 2nd worker on), 1 worker, quota 1, two "
                              "consecutive calls with a pause in between (DESIGN §7 F3)",
                              "the same with 2 workers / unordered second call / quota 2 with exact retirement",
+                             "stop during replacement: 2 workers with quotas 1 and 2, items of 0.15 s, 3 chunks -> "
+                             "worker 0 retires mid-call, create() of its successor sleeps 1.0 s and is still running "
+                             "when the call ends; second call of 3..4 chunks needs further replacements "
+                             "(deterministic form of F3)",
                              "delayed feeder in the first call, normal second call (F1 leak into the next call)",
                              "slow exhaustion in the first call, then a second call"],
     },
@@ -85,6 +89,15 @@ def cases(tier, seed):
     core = ["O5", "U4", "E", "O1", "Q"] if quick else ["O5", "U4", "E", "O1", "Q", "L3"]
     # forced schedules first (regressions of DESIGN §7 F3 / F1 / F2 across calls) ----------------------------------
     fdelays, pauses = ([0.5], [1.5]) if quick else ([0.2, 0.5, 1.0], [0.0, 0.5, 1.5])
+    # deterministic version of F3: worker 0 (quota 1) retires in the MIDDLE of call 0, its replacement is still being
+    # created (slow factory) when the call ends, so the replace thread is stopped while busy; worker 1 (quota 2)
+    # retires at the end. Call 1 needs three more replacements.
+    for d, ordered, n2 in itertools.product(fdelays[-1:] if quick else fdelays, (True, False), (3, 4)):
+        yield {"kind": "stop-during-replacement",
+               "cfg": {"pool": "factory", "workers": 2, "wq": 1.0, "rq": None, "quotas": [1, 2, 1], "item_s": 0.15,
+                       "factory_delay": d + 0.5, "factory_slow_from": 3, "wait_ready": True},
+               "calls": [{"ordered": True, "n": 3, "cs": 1, "base": 10},
+                         {"ordered": ordered, "n": n2, "cs": 1, "base": 110}]}
     for d, pause in itertools.product(fdelays, pauses):
         base = {"pool": "factory", "wq": 1.0, "rq": None, "factory_delay": d, "factory_slow_from": 2}
         # the native reproducer: imap([3,4],1) then imap([4,5,6],1), 1 worker, quota 1
